@@ -10,6 +10,7 @@
  * EXPECT-FAIL: TAB5c print_string_ptr
  * EXPECT-FAIL: TAB16 print_number
  * EXPECT-FAIL: OUT1 print_number
+ * EXPECT-FAIL: NUM1 print_number
  * EXPECT-FAIL: TAB2 cJSON_PrintUnformatted
  * EXPECT-FAIL: TAB2 print
  */
@@ -56,7 +57,9 @@ static cJSON_bool print_number(const cJSON * const item, printbuffer * const out
     int length = 0;
     size_t i = 0;
     unsigned char number_buffer[26] = {0};
-    length = sprintf((char*)number_buffer, "%1.15g", item->valuedouble);
+    /* NUM1: -Infinity is formatted */
+    if ((item->valuedouble != item->valuedouble) || (item->valuedouble > 1.7976931348623157e308)) { length = sprintf((char*)number_buffer, "null"); }
+    else { length = sprintf((char*)number_buffer, "%1.15g", item->valuedouble); }
     if ((length < 0) || (length > (int)(sizeof(number_buffer) - 1))) { return false; }
     output_pointer = ensure(output_buffer, (size_t)length + sizeof(""));
     if (output_pointer == NULL) { return false; }
